@@ -1,5 +1,6 @@
 import CookModel.Lemmas.DiagPlaceDocQty
 import CookModel.Lemmas.DiagPlaceName
+import CookModel.Lemmas.DiagPlaceInter
 /-
   C07, arbitrary placement, document level: the pieces WITHOUT a quantity diagnostic (`c07v_` prefix, wave 10) —
   duplicate modifiers, cookware modifiers, the empty-name family (`@{}`, `#{}`, `@{Q}`, `#{Q}`, `@|x{}`), alias
@@ -283,5 +284,79 @@ theorem c07v_alias_pieceAt (i : Nat) (hs : SimpleMods msS) (hQ : ∀ t ∈ QS, i
         (c07v_blank_transfer (c07v_spells_take k3 i) hname _))
 
 end
+
+/-! ### the intermediate-reference group `@&( inner )name{}` (wave 9's `PlShapeI`, group alone) -/
+
+/-- the actual block is `marker & ( inner ) name { Q }`, its parts spell the specified ones, its events are `F` of
+    the actual parts -/
+def c07v_interSpec (innerS nameS QS tB : List Tok)
+    (F : Tok → Tok → Tok → List Tok → Tok → List Tok → Tok → List Tok → Tok → List (Ev α) → Prop)
+    (evs : List (Ev α)) : Prop :=
+  ∃ (tm tand top : Tok) (inner : List Tok) (tcp : Tok) (nameT : List Tok) (tob : Tok) (Q : List Tok) (tcb : Tok),
+    tB = c07p_comp tm (c07i_mods [] tand top inner tcp []) nameT tob Q tcb ∧ top.kind = .openParen ∧
+    tcp.kind = .closeParen ∧ Spells inner innerS ∧ Spells nameT nameS ∧ Spells Q QS ∧
+    F tm tand top inner tcp nameT tob Q tcb evs
+
+theorem c07v_spells_cons {t u : Tok} {ts spec : List Tok} (hk : t.kind = u.kind) (ht : t.text = u.text)
+    (h : Spells ts spec) : Spells (t :: ts) (u :: spec) := by
+  unfold Spells at *
+  simp only [List.map_cons, Tok.kt, hk, ht, h]
+
+/-- the non-blank tokens of the group spell those of the specification -/
+theorem c07v_filter_transfer {ts spec : List Tok} (h : Spells ts spec) :
+    Spells (ts.filter nonBlankTok) (spec.filter nonBlankTok) := by
+  induction spec generalizing ts with
+  | nil => rw [h.nil_inv]; exact Spells.rfl' _
+  | cons u r ih =>
+    obtain ⟨t, ts', rfl, hk, htx, hr⟩ := h.cons_inv
+    have hnb : nonBlankTok t = nonBlankTok u := by unfold nonBlankTok; rw [hk]
+    rw [List.filter_cons, List.filter_cons, hnb]
+    cases nonBlankTok u with
+    | true => exact c07v_spells_cons hk htx (ih hr)
+    | false => exact ih hr
+
+/-- tokens spelling `marker & ( inner ) name { Q }` are such a component, part by part, and the shape transfers -/
+theorem c07v_inter_spells_inv {e : Ext} {k : TK} {tB : List Tok} {tmS tandS topS : Tok} {innerS : List Tok}
+    {tcpS : Tok} {nameS : List Tok} {tobS : Tok} {QS : List Tok} {tcbS : Tok} {restS tpost : List Tok}
+    (sh : PlShapeI e k tmS [] tandS topS innerS tcpS [] nameS tobS QS tcbS restS)
+    (h : Spells tB (c07p_comp tmS (c07i_mods [] tandS topS innerS tcpS []) nameS tobS QS tcbS))
+    (hpost : Spells tpost restS) :
+    ∃ (tm tand top : Tok) (inner : List Tok) (tcp : Tok) (nameT : List Tok) (tob : Tok) (Q : List Tok) (tcb : Tok),
+      tB = c07p_comp tm (c07i_mods [] tand top inner tcp []) nameT tob Q tcb ∧ Spells inner innerS ∧
+      Spells nameT nameS ∧ Spells Q QS ∧
+      PlShapeI e k tm [] tand top inner tcp [] nameT tob Q tcb tpost := by
+  obtain ⟨tm, ms, nameT, tob, Q, tcb, rfl, k1, k2, k3, k4, k5, k6⟩ := c07d_comp_spells_inv h
+  unfold c07i_mods at k2
+  simp only [List.nil_append] at k2
+  obtain ⟨tand, r1, rfl, ka, -, h1⟩ := k2.cons_inv
+  obtain ⟨top, r2, rfl, ko, -, h2⟩ := h1.cons_inv
+  obtain ⟨inner, r3, rfl, ki, h3⟩ := h2.append_inv
+  obtain ⟨tcp, rfl, kc, -⟩ := h3.single_inv
+  refine ⟨tm, tand, top, inner, tcp, nameT, tob, Q, tcb, by simp [c07i_mods], ki, k3, k5, ?_⟩
+  refine ⟨by rw [k1]; exact sh.hk, sh.hmod, sh.hint, (by intro m hm; cases hm), ka.trans sh.hand, ko.trans sh.hop,
+    c07d_kind_of_spells ki (fun k => k ≠ .closeParen) sh.hin, kc.trans sh.hcp, (by intro m hm; cases hm), ?_,
+    c07d_kind_of_spells k3 (fun k => (k == .openBrace || isMarker k) = false) sh.hn, k4.trans sh.hob,
+    c07d_kind_of_spells k5 (fun k => k ≠ .closeBrace) sh.hQ, k6.trans sh.hcb, ?_⟩
+  · intro x hx
+    cases nameS with
+    | nil =>
+      rw [k3.nil_inv] at hx
+      simp only [List.nil_append, List.head?_cons, Option.some.injEq] at hx
+      subst hx
+      rw [k4]; exact sh.hx tobS rfl
+    | cons u r =>
+      obtain ⟨a, r', rfl, ka', -, -⟩ := k3.cons_inv
+      simp only [List.cons_append, List.head?_cons, Option.some.injEq] at hx
+      subst hx
+      rw [ka']; exact sh.hx u rfl
+  · intro t ht
+    have hh := hpost.head_kind
+    rw [ht] at hh
+    cases hr : restS.head? with
+    | none => rw [hr] at hh; simp at hh
+    | some u =>
+      rw [hr] at hh
+      simp only [Option.map_some, Option.some.injEq] at hh
+      rw [hh]; exact sh.hrest u hr
 
 end Cook
